@@ -126,10 +126,16 @@ pub fn eviction(kind: &str, n: usize, rng: &mut SmallRng) -> Vec<Program> {
     for x in 0..n {
         let limit = *[0u64, 30, 60, 90].choose(rng).unwrap();
         let mut setup = Vec::new();
-        for k in keys.iter().take(rng.gen_range(0..=3)) {
-            let mut c = cmd("set", &vec![b'x'; rng.gen_range(0..30)], 0, 0, 1);
+        let with_expired = rng.gen_bool(0.5);
+        for (ki, k) in keys.iter().take(rng.gen_range(0..=3)).enumerate() {
+            // some items carry a TTL that will have run out (but nobody has looked at them since)
+            let ttl = if with_expired && ki % 2 == 0 { 1 } else { 0 };
+            let mut c = cmd("set", &vec![b'x'; rng.gen_range(0..30)], 0, ttl, 1);
             c.key = k.clone();
             setup.push(c);
+        }
+        if with_expired {
+            setup.push(tick(5));
         }
         let nc = if rng.gen_bool(0.6) { 2 } else { 3 };
         let mut clients = Vec::new();
@@ -137,7 +143,8 @@ pub fn eviction(kind: &str, n: usize, rng: &mut SmallRng) -> Vec<Program> {
             let mut cl = Vec::new();
             for i in 0..rng.gen_range(1..=2) {
                 let k = keys.choose(rng).unwrap().clone();
-                let mut c = match rng.gen_range(0..10) {
+                let mut c = match rng.gen_range(0..12) {
+                    10 | 11 => cmd("get", b"", 0, 0, (w * 10 + i) as u32),
                     0..=5 => cmd("set", &vec![b'a' + w as u8; rng.gen_range(0..40)], 0, 0, (w * 10 + i) as u32),
                     6 => cmd("append", b"zz", 0, 0, (w * 10 + i) as u32),
                     7 => cmd("delete", b"", 0, 0, (w * 10 + i) as u32),
